@@ -144,9 +144,30 @@ type CEntry struct {
 	Attribs []Entry // never empty (the grammar requires [ ... ])
 }
 
-type TableItem struct { // a field or an annotation line inside !type / !table
+type TableItem struct { // a field, an annotation line or an in-place tuple inside !type / !table
 	Field *Field
 	Anno  *Anno
+	Tuple *InTuple
+}
+
+// `name <:` (or `name(1..) <:`) followed by an indented block of fields; nested to any depth
+type InTuple struct {
+	Name   string
+	Array  bool
+	Fields []NField
+}
+type NField struct {
+	Field *Field
+	Tuple *InTuple
+}
+
+func (t *InTuple) gallina(ctor string) string {
+	return ctor + " " + gs(t.Name) + " " + gb(t.Array) + " " + glist(t.Fields, func(n NField) string {
+		if n.Field != nil {
+			return "NField (" + n.Field.Gallina() + ")"
+		}
+		return n.Tuple.gallina("NTuple")
+	})
 }
 type EnumItem struct {
 	Name string
@@ -371,6 +392,9 @@ func (m Member) Gallina() string {
 		items := glist(m.Items, func(t TableItem) string {
 			if t.Field != nil {
 				return "TField (" + t.Field.Gallina() + ")"
+			}
+			if t.Tuple != nil {
+				return t.Tuple.gallina("TTuple")
 			}
 			return "TAnno (" + t.Anno.Gallina() + ")"
 		})
